@@ -16,6 +16,9 @@ def run(ctx):
     ctx.rule("R-MPG-MIN-DEADLINE", "a buffer's deadline is only ever lowered", floor=2)
     ctx.rule("R-WAKE", "buffering a group with a time limit wakes the job thread", floor=2)
     ctx.rule("R-MPG-FLUSH", "expired buffers are sent once and deleted; full buffers are flushed early", floor=2)
+    from rules import codec
+    ctx.rule("O-PGN", "PDU1/PDU2 classification used to address contained groups is exact and complementary", floor=10)
+    codec.pgn(ctx)
     mpg.fit(ctx, L)
     mpg.header_layout(ctx, L)
     T.hash_inj(ctx, L)
@@ -26,4 +29,7 @@ def run(ctx):
     ctx.rule("R-MPG-COPY", "a buffered group holds its own copy of the payload and its length", floor=1)
     mpg.copy_rule(ctx, L)
     TM.wake(ctx, L, tables=("_multi_pg_snd_buffer",), funcs=(L.send_pgn,))
+    ctx.rule("R-WAKEUP-MIN", "the job pass keeps the earliest pending deadline as its next wake-up", floor=6)
+    TM.wakeup_min(ctx, L.job, tag="22 ")
+    TM.wakeup_min(ctx, ctx.prog.func("ElectronicControlUnit", "_async_job_thread"), tag="ECU ")
     return "multi-PG packing arithmetic, header layout, keying, padding and deadline handling decided on j1939_22.py"
